@@ -186,6 +186,18 @@ func switchWith(p *Prog, root string, pkgShort string, pred func(fi *FuncInfo, r
 			}
 		}
 	}
+	// the table may be written as data: a package-level map or slice literal the function looks values up in
+	for _, k := range keys {
+		fi := p.Funcs[k]
+		if fi == nil || fi.Decl.Body == nil {
+			continue
+		}
+		for _, rows := range p.literalTableRows(fi) {
+			if pred(fi, rows) {
+				return fi, rows
+			}
+		}
+	}
 	return nil, nil
 }
 
@@ -281,7 +293,7 @@ func c11Tables(p *Prog, r *Report) {
 		pos := ""
 		row, ok := firstMatch(t.ToPb, S)
 		if ok {
-			pos = p.pos(row.Clause)
+			pos = p.pos(row.where())
 			ec := rowVal(row)
 			if prev, dup := seenCode[ec]; dup && prev != S {
 				r.Viol("C11.a", cons+"/injective", pos, fmt.Sprintf("server maps both %s and %s to %s: the client cannot tell them apart", prev, S, ec))
@@ -294,7 +306,7 @@ func c11Tables(p *Prog, r *Report) {
 				continue
 			}
 			got := rowVal(back)
-			r.Check(got == "wrap:"+S, "C11.a", cons+"/round-trip", p.pos(back.Clause),
+			r.Check(got == "wrap:"+S, "C11.a", cons+"/round-trip", p.pos(back.where()),
 				fmt.Sprintf("%s -> %s -> %s", S, ec, got),
 				fmt.Sprintf("server sends %s as %s, the client turns %s into %s: errors.Is(err, %s) is false on the client", S, ec, ec, got, S))
 		} else {
@@ -317,13 +329,13 @@ func c11Tables(p *Prog, r *Report) {
 	} else {
 		if _, hasDef := defaultRow(t.ToPb); hasDef {
 			d, _ := defaultRow(t.ToPb)
-			r.Check(rowVal(d) == zeroCode || rowVal(d) == "", "C11.a", "unknown/server", p.pos(d.Clause), "default detail code is "+zeroCode, "server default detail code is "+rowVal(d)+", not the unknown code")
+			r.Check(rowVal(d) == zeroCode || rowVal(d) == "", "C11.a", "unknown/server", p.pos(d.where()), "default detail code is "+zeroCode, "server default detail code is "+rowVal(d)+", not the unknown code")
 		} else {
 			r.Hold("C11.a", "unknown/server", p.pos(t.toPbFn.Decl), "no default case: unlisted errors keep the zero value "+zeroCode)
 		}
 		back, ok := firstMatch(t.FromPb, zeroCode)
 		if ok {
-			r.Check(rowVal(back) == "wrap:fs_db.ErrUnknown", "C11.a", "unknown/client", p.pos(back.Clause), zeroCode+" -> ErrUnknown", "client maps the unknown detail code to "+rowVal(back))
+			r.Check(rowVal(back) == "wrap:fs_db.ErrUnknown", "C11.a", "unknown/client", p.pos(back.where()), zeroCode+" -> ErrUnknown", "client maps the unknown detail code to "+rowVal(back))
 		} else {
 			// falls to the status path: Internal must give ErrUnknown
 			ir, ok2 := firstMatch(t.FromCode, "google.golang.org/grpc/codes.Internal")
@@ -334,7 +346,7 @@ func c11Tables(p *Prog, r *Report) {
 	}
 	// client default of the status path
 	if d, ok := defaultRow(t.FromCode); ok {
-		r.Check(strings.Contains(rowVal(d), "fs_db.ErrUnknown"), "C11.a", "unknown/client-status-default", p.pos(d.Clause), "status default joins ErrUnknown", "client status-code default does not yield ErrUnknown")
+		r.Check(strings.Contains(rowVal(d), "fs_db.ErrUnknown"), "C11.a", "unknown/client-status-default", p.pos(d.where()), "status default joins ErrUnknown", "client status-code default does not yield ErrUnknown")
 	}
 	// status-code tables agreement is informational (the detail path decides for server-produced errors)
 	for _, S := range ss {
